@@ -11,6 +11,9 @@ fn make_check(id: &str) -> Option<Box<dyn Check>> {
     if let Some(c) = sim::props::sim_check(id) {
         return Some(Box::new(c));
     }
+    if id == "C07" {
+        return Some(Box::new(sim::crash::CrashCheck::new()));
+    }
     None
 }
 
